@@ -26,6 +26,7 @@ def chain_bodies(fb):
 def run(ck, fb):
     _run0(ck, fb)
     r06f(ck, fb)
+    ck.borrow('rules.c02', {'R02n': 'R06g'}, 'a node that restarts right after a leader change must report the term of its last entry: the vote / append fast path compares it')
 
 
 def _run0(ck, fb):
